@@ -2,6 +2,7 @@ from abc import ABC, abstractmethod
 import numpy as np
 from optiland.rays import RealRays
 from optiland.jones import JonesFresnel
+from optiland.materials import BaseMaterial
 
 
 class BaseCoating(ABC):
@@ -303,8 +304,8 @@ class FresnelCoating(BaseCoatingPolarized):
         """
         return {
             'type': self.__class__.__name__,
-            'material_pre': self.material_pre,
-            'material_post': self.material_post
+            'material_pre': self.material_pre.to_dict(),
+            'material_post': self.material_post.to_dict()
         }
 
     @classmethod
@@ -318,4 +319,5 @@ class FresnelCoating(BaseCoatingPolarized):
         Returns:
             BaseCoating: The coating created from the dictionary.
         """
-        return cls(data['material_pre'], data['material_post'])
+        return cls(BaseMaterial.from_dict(data['material_pre']),
+                   BaseMaterial.from_dict(data['material_post']))
